@@ -39,8 +39,27 @@ Definition op_ssrc (o : op) : list Z :=
   match o with Bind k _ => [k] | Unbind k => [k] | Arrive k _ _ => [k] | Tick => [] end.
 
 (* every SSRC named by an operation or by a NACK packet *)
+(* (duplicates removed with a linear scan over the few distinct SSRCs; the standard nodup/in_dec
+   is quadratic under vm_compute, which matters for the 400 000-op case of the c03wrap set) *)
+Definition dedup (l : list Z) : list Z :=
+  rev (fold_left (fun acc x => if memz x acc then acc else x :: acc) l []).
+
 Definition case_ssrcs (ops : list op) (outs : list tick_out) : list Z :=
-  nodup Z.eq_dec (flat_map op_ssrc ops ++ flat_map (map fst) outs).
+  dedup (flat_map op_ssrc ops ++ flat_map (map fst) outs).
+
+Lemma dedup_In l x : In x (dedup l) <-> In x l.
+Proof.
+  unfold dedup. rewrite <- in_rev.
+  assert (H : forall acc, In x (fold_left (fun acc x => if memz x acc then acc else x :: acc) l acc) <->
+                          In x acc \/ In x l).
+  { induction l as [|y tl IH]; intros acc; cbn [fold_left In]; [tauto|].
+    rewrite IH. destruct (memz y acc) eqn:E.
+    - assert (In y acc) by (unfold memz in E; apply existsb_exists in E as (z & Hz & Ez);
+                            apply Z.eqb_eq in Ez; subst; auto).
+      split; [tauto|]. intros [?|[->|?]]; auto.
+    - cbn [In]. split; [intros [[->|?]|?]; auto|intros [?|[->|?]]; auto]. }
+  rewrite H. cbn [In]. tauto.
+Qed.
 
 Definition olist_eqb (a b : list (option (list Z))) : bool :=
   list_eqb (option_eqb (list_eqb Z.eqb)) a b.
